@@ -1251,3 +1251,9 @@ def replay(ctx, doc):
     for x in f:
         print("oracle:", x["signature"], "-", x["what"])
     return bool(f)
+
+
+# somebody else's classes: the documented extension points used the way a third party uses them (props/thirdparty.py)
+from props import thirdparty as _thirdparty  # noqa: E402
+
+correspondence, search, replay = _thirdparty.attach(PID, correspondence, search, replay)
